@@ -22,6 +22,7 @@
 -/
 import GdModel.Flow.Sound
 import GdModel.Generated.RlFlow
+import GdModel.Generated.SliceGuards
 
 namespace GdModel.Props.C10
 open GdModel.Flow GdModel.Generated
@@ -57,6 +58,12 @@ example : balancedAt (.seq .inc (.seq (.choice (.seq .dec .ret) .skip) (.seq .de
     exactly `start + n > len`. -/
 theorem slice_guard_exact (start n len : Nat) :
     (n > len ∨ start > len - n) ↔ start + n > len := by omega
+
+/-- the four slice accessors of the current source (re-extracted on every run by
+    extract/x3_sliceguards.py) all use the form that `slice_guard_exact` is about -/
+theorem slice_guards_in_source_are_safe :
+    sliceGuards.map (·.1) = ["gd_get_carray_slice", "gd_put_carray_slice", "gd_get_sarray_slice", "gd_put_sarray_slice"] ∧
+    sliceGuards.all (fun g => g.2 == GuardShape.safe) = true := by decide
 
 /-- the pre-repair form `start + n > len` evaluated modulo 2^64 accepts
     out-of-range slices: witness start = 2, n = 2^64 − 1, len = 4. -/
